@@ -313,7 +313,7 @@ class PDB(Spec):
         _title_axis(),
         ("bonds", ["last-atoms", "none", "one", "few", "ten", "hub", "chain"]),
         ("atffparams", ["none", "attypes", "restypes+resnums", "all"]),
-        ("extra", ["none", "occupancies+bfactors", "chainids", "compound", "all"]),
+        ("extra", ["none", "occupancies+bfactors", "chainids", "compound", "compound-multiline", "all"]),
     ]
 
     def build(self, case, seed):
@@ -344,6 +344,8 @@ class PDB(Spec):
             ex["chainids"] = np.array(["ABC"[(i // 5) % 3] for i in range(n)])
         if case["extra"] in ("compound", "all"):
             ex["compound"] = "MOL_ID: 1;"
+        if case["extra"] == "compound-multiline":
+            ex["compound"] = "MOL_ID: 1;\nMOLECULE: WATER;\nCHAIN: A;"
         kw["extra"] = ex
         return IOData(**kw), {}, {}
 
